@@ -13,6 +13,7 @@ Engine: E5 (production SFTPServer / SFTPClient over a socketpair).
     HANDLE for OPEN/OPENDIR, DATA for READ, NAME for READDIR/REALPATH/READLINK, ATTRS for
     STAT/LSTAT/FSTAT, EXTENDED_REPLY for EXTENDED); each response parses strictly as its type;
     the second sentinel is answered within 10 s and the server does not hang up.
+    The 10 s bound is per answer (it restarts whenever a response arrives).
     A read-count guard (more than READ_LIMIT handle reads while serving ONE request) turns an
     endless server-side read loop into a verdict; a thread stuck anywhere else is located by its
     stack and released with an asynchronous exception.
@@ -61,7 +62,7 @@ EXCLUDE = {
     "clienthang": None,  # write drain after another request consumed the pipelined replies
 }
 
-READ_LIMIT = 20000
+READ_LIMIT = 8000
 ANSWER_BOUND_S = 10.0
 CLIENT_BOUND_S = 20.0
 S1, S2 = 0xFFFFFFF0, 0xFFFFFFF1
@@ -259,13 +260,19 @@ class Pump:
         return True
 
     def wait(self, pred, timeout):
+        """Wait until pred(); gives up after `timeout` seconds WITHOUT ANY NEW RESPONSE
+        (the bound is per answer, not per stream: a loaded machine only slows the stream down)."""
         end = time.monotonic() + timeout
+        seen = len(self.out)
         while not pred():
             if self.eof:
                 return False
             r, _, _ = select.select([self.s], [], [], 0.02)
             if r:
                 self._recv()
+                if len(self.out) != seen:
+                    seen = len(self.out)
+                    end = time.monotonic() + timeout
             elif time.monotonic() > end:
                 return False
         return True
@@ -421,7 +428,29 @@ def _attr_count_pos(t, body):
 
 
 def run_server_case(ctx, case, forced=False):
-    """Execute one request stream; returns the list of signatures reported."""
+    """Execute one request stream and judge it; returns the list of signatures reported."""
+    run = _serve(ctx, case, forced)
+    v = run["verdict"]
+    sig = None
+    if v is not None and v[0] == "stuck":
+        sig = SIG_CHECKFILE if v[1] == "sftp_server.py:_check_file" else "stops-answering|stuck-under:" + v[1]
+    if sig is not None and not _is_open(ctx, sig):
+        # time-based verdict about something that is not a listed open finding: must repeat twice (retry rule)
+        for _ in range(2):
+            again = _serve(ctx, case, forced)
+            if again["verdict"] != v:
+                ctx.inconc("server-stall-not-reproduced")
+                run = again
+                break
+    return _judge_server(ctx, case, run)
+
+
+def _is_open(ctx, sig):
+    ent = getattr(ctx, "_known", {}).get(sig)
+    return bool(ent) and ent.get("status") == "open"
+
+
+def _serve(ctx, case, forced):
     from vlib.sftpenv import SftpEnv, HarnessAbortLoop
 
     pkts = [(int(p["t"]), int(p["id"]), bytes(p["body"])) for p in case["pkts"]]
@@ -486,15 +515,27 @@ def run_server_case(ctx, case, forced=False):
         shutil.rmtree(root, ignore_errors=True)
     if env.threads_alive():
         ctx.inconc("harness:server-thread-left-behind")
+    return {
+        "sent": sent,
+        "responses": responses,
+        "verdict": verdict,
+        "guard_fired": guard.fired,
+        "log_abort": log_abort,
+        "thread_exc": thread_exc,
+        "requests": stats["requests"],
+    }
+
+
+def _judge_server(ctx, case, run):
+    sent, responses, verdict = run["sent"], run["responses"], run["verdict"]
+    log_abort, thread_exc = run["log_abort"], run["thread_exc"]
 
     # ---- evidence
-    n_known = sum(1 for t, _, _ in sent if t in REQ_NAMES)
     nontrivial = bool(case.get("nt"))
     classes = ["A:stream"] + sorted(set("A:req:" + req_name(t) for t, _, _ in sent[:-2] or sent))
     classes += sorted(set("A:resp:%s" % t for t, _ in responses))
     ctx.case(case, nontrivial, classes)
     ctx.count("A:requests", len(sent))
-    del n_known
 
     # ---- oracle
     sigs = []
@@ -507,18 +548,21 @@ def run_server_case(ctx, case, forced=False):
         t, rid, body = sent[i]
         return "#%d %s(type %d) id=%d body=%s" % (i, req_name(t), t, rid, body[:48].hex())
 
-    if guard.fired or log_abort:
+    if run["guard_fired"] or log_abort:
         viol(
             "stops-answering",
             "check-file-endless-read-loop",
             "the server issued more than %d handle reads while serving one request (or re-read one offset endlessly); "
-            "guard fired %d time(s); requests: %s" % (READ_LIMIT, guard.fired + len(log_abort), [describe(i) for i in range(len(sent)) if sent[i][0] == 200][:4]),
+            "guard fired %d time(s); requests: %s" % (READ_LIMIT, run["guard_fired"] + len(log_abort), [describe(i) for i in range(len(sent)) if sent[i][0] == 200][:4]),
         )
         return sigs
     if verdict is not None:
         first = len(responses)
         who = describe(first) if first < len(sent) else "?"
-        if verdict[0] == "hangup":
+        if verdict[0] == "stuck" and verdict[1] == "sftp_server.py:_check_file":
+            # the same endless loop, caught by the clock before the read counter got to READ_LIMIT
+            viol("stops-answering", "check-file-endless-read-loop", "no answer within %.0f s; first unanswered request: %s; server thread was in %s" % (ANSWER_BOUND_S, who, verdict[1]))
+        elif verdict[0] == "hangup":
             viol("stops-answering", "hangup:" + (req_name(sent[first][0]) if first < len(sent) else "?"), "server closed the session; first unanswered request: %s; server thread: %r" % (who, thread_exc))
         else:
             viol("stops-answering", "stuck-under:" + verdict[1], "no answer within %.0f s; first unanswered request: %s; server thread was in %s" % (ANSWER_BOUND_S, who, verdict[1]))
@@ -532,15 +576,39 @@ def run_server_case(ctx, case, forced=False):
         resp_ids[struct.unpack(">I", p[:4])[0]] += 1
     missing = req_ids - resp_ids
     extra = resp_ids - req_ids
-    if missing:
-        rid = sorted(missing)[0]
-        i = [j for j in range(len(sent)) if sent[j][1] == rid][0]
-        viol("no-response", req_name(sent[i][0]), "request %s got %d responses for %d requests with that id" % (describe(i), resp_ids[rid], req_ids[rid]))
-        return sigs
-    if extra:
+    if missing or extra:
+        # The verdict is the multiset comparison above; WHICH request it was is read off an in-order
+        # alignment (the server is sequential, so responses arrive in request order).
+        rids = [struct.unpack(">I", p[:4])[0] for _, p in responses]
+        i = j = 0
+        unanswered, surplus = [], []
+        while i < len(sent) or j < len(rids):
+            if i < len(sent) and j < len(rids) and sent[i][1] == rids[j]:
+                i += 1
+                j += 1
+            elif j < len(rids) and i > 0 and rids[j] == sent[i - 1][1]:
+                surplus.append((i - 1, j))
+                j += 1
+            elif i < len(sent):
+                unanswered.append(i)
+                i += 1
+            else:
+                surplus.append((None, j))
+                j += 1
+        if missing:
+            rid = sorted(missing)[0]
+            cand = [k for k in unanswered if sent[k][1] == rid] or [k for k in range(len(sent)) if sent[k][1] == rid]
+            k = cand[0]
+            viol("no-response", req_name(sent[k][0]), "request %s was not answered (%d responses for %d requests with id %d)" % (describe(k), resp_ids[rid], req_ids[rid], rid))
+            return sigs
         rid = sorted(extra)[0]
-        js = [j for j in range(len(sent)) if sent[j][1] == rid]
-        viol("extra-response", req_name(sent[js[0]][0]) if js else "unsolicited", "id %d: %d responses for %d requests; response types %r" % (rid, resp_ids[rid], req_ids[rid], [t for t, p in responses if struct.unpack(">I", p[:4])[0] == rid]))
+        cand = [(k, j) for k, j in surplus if rids[j] == rid]
+        k = cand[0][0] if cand else None
+        viol(
+            "extra-response",
+            req_name(sent[k][0]) if k is not None else "unsolicited",
+            "id %d: %d responses for %d requests (%s); response types %r" % (rid, resp_ids[rid], req_ids[rid], describe(k) if k is not None else "no such request", [t for t, p in responses if struct.unpack(">I", p[:4])[0] == rid]),
+        )
         return sigs
     # in-order matching per id (the server is sequential)
     pending = {}
@@ -557,7 +625,7 @@ def run_server_case(ctx, case, forced=False):
             check_wellformed(t, p)
         except (Malformed, UnicodeDecodeError) as e:
             viol("malformed-response", "%s->%s:%s" % (req_name(rt), t, type(e).__name__), "request %s: response type %d payload %s: %s" % (describe(i), t, p[:96].hex(), e))
-    if stats["requests"] != len(sent):
+    if run["requests"] != len(sent):
         ctx.inconc("harness:request-count-mismatch")
     return sigs
 
@@ -674,6 +742,15 @@ def run_client_once(ctx, case, observe):
             def go():
                 with client.open("/r0", "rb") as f:
                     return len(f.read(op[1]))
+
+            return go
+        if k == "prefetchall":
+            note_other()
+
+            def go():
+                with client.open("/r0", "rb") as f:
+                    f.prefetch(None, op[1])
+                    return len(f.read())
 
             return go
         if k == "ropen":
@@ -1050,6 +1127,7 @@ client_op = st.one_of(
     st.tuples(st.just("lstat"), st.integers(0, 5)),
     st.tuples(st.just("listdir")),
     st.tuples(st.just("readfile"), st.sampled_from([0, 10, 40000, 100000, 200000])),
+    st.tuples(st.just("prefetchall"), st.sampled_from([None, None, 1, 3])),
     st.tuples(st.just("ropen"), st.booleans(), st.sampled_from([None, None, 1, 2])),
     st.tuples(st.just("rread"), st.sampled_from([1, 100, 32768, 50000, 100000, -1, -1])),
     st.tuples(st.just("rclose")),
